@@ -372,7 +372,9 @@ PROPS["C07"] = _loop("stop",
      "never lost and the exit path is finite"])
 PROPS["C08"] = _loop("terminate",
     "C08_terminate_leaves_nothing (registry empty, every job's runtime timer/goroutine gone, every timeout/interval cancelled, queue drained), "
-    "C08_cancelled_never_runs_again, C08_helpers_registered, C08_terminated_until_restart, C08_refuses_while_terminated, C08_restart_accepts",
+    "C08_cancelled_never_runs_again, C08_helpers_registered, C08_terminated_until_restart, C08_refuses_while_terminated, C08_restart_accepts; "
+    "C08_registry_append / _remove_refines_model / _remove_idempotent: loop.jobs as the array it is (job.idx, move-last-into-slot removal) keeps "
+    "jobs[k].idx = k, removes exactly that job (the set removal of the model) and is idempotent on jobs marked -1",
     _LOOP_RULE % ("", ""), ["SpecFail5", "SpecFail8", "SpecFail10", "SpecFail11", "Implgoroutine-left-after-terminate", "Impljobs-left-after-terminate",
                            "Impljobs-index-broken", "Implstuck"],
     ["Terminate is not called concurrently with Stop*/Start/Run (documented contract)"])
